@@ -1436,3 +1436,21 @@ SPECS["C16"]["level_text"] += (
     "conventions on Vec- and SmallVec-backed deques (12 source x 12 destination states x 4 methods enumerated; handle ops in a third of "
     "the random cases; oracle: every object against its own BTreeMap after every handle op), and calls every non-panicking op from a "
     "destructor while the thread unwinds (`unwinding <op>`).")
+_UNWIND_TEXT = (" Track traits (harness/src/unwind.rs, Driver/Unwind.lean): nothing in the property depends on std::thread::panicking(), so the "
+                "families also make their calls from a destructor WHILE THE THREAD UNWINDS from a deliberate caught panic (`unwinding <op>`: same "
+                "model, observations and oracle as the plain op; refused on both sides for an op that is specified to panic on the current state) "
+                "and build whole histories inside a scope that panics, so that the unwinder drops every object (`scoped_panic …`: observations as "
+                "usual, then the process-wide live chunk / byte counters must be back at their values before the op).")
+for _p in ("C03", "C04", "C05", "C06", "C08", "C10", "C14", "C17", "C19", "C20"):
+    SPECS[_p]["level_text"] += _UNWIND_TEXT
+SPECS["C13"]["level_text"] += (
+    " Track traits: PLAIN SEQUENTIAL calls on a real object without the stepping backend (`seq snapshot | update | try_update`, model = solo runs "
+    "of thread 0 on the SC machine; oracle: a snapshot returns the pair of the most recent update that returned normally and was not older than its "
+    "predecessor), each also made from a destructor while the thread unwinds from an unrelated caught panic (`unwinding seq …`, every placement "
+    "over an 8-call history enumerated; only calls that cannot panic are wrapped): a completed update is never lost whether or not the thread was "
+    "panicking when it was made.")
+SPECS["C20"]["level_text"] += (
+    " Clone::clone_from (track traits): `clone_from v<d> v<s>`, `s_clone_from`, `a_clone_from` call dst.clone_from(&src) on two live objects in "
+    "every destination state (empty, consumed, pending placeholder, spilled chunk, cleared) - model = the WOp history clone(src), drop(dst); oracle: "
+    "the destination then holds exactly the source's unconsumed bytes; an overwritten anchored slice names the source's bytes and keeps its chunk "
+    "alive on its own (C05); `dbg` formats every live object with Debug.")
